@@ -979,6 +979,24 @@ func isBroadcast(ip net.IP, network *net.IPNet) bool {
 	// Check for all-ones broadcast
 	ip4 := ip.To4()
 	if ip4 != nil {
+		// Directed broadcast of the given network (host bits all ones)
+		if network != nil {
+			if base, mask := network.IP.To4(), network.Mask; base != nil && len(mask) == net.IPv4len {
+				ones, bits := mask.Size()
+				if bits-ones >= 2 {
+					directed := true
+					for i := range ip4 {
+						if ip4[i] != base[i]|^mask[i] {
+							directed = false
+							break
+						}
+					}
+					if directed {
+						return true
+					}
+				}
+			}
+		}
 		return ip4[0] == 255 && ip4[1] == 255 && ip4[2] == 255 && ip4[3] == 255
 	}
 	// For MAC address broadcast check
